@@ -313,7 +313,7 @@ class Speller(object):
                 continue
             self.stats['nested_pg'] += 1
             inner = [x for u in units[i:j] for x in u]
-            units[i:j] = [[('pg', None, inner + self.pg_annots())]]
+            units[i:j] = [[('pg', ('dn%d' % self.rng.randint(0, 999)) if self.rng.random() < 0.3 else None, inner + self.pg_annots())]]
         body = [x for u in units for x in u]
         ann = self.pg_annots()
         pos = self.rng.randint(0, len(body))
@@ -481,7 +481,9 @@ def gen_plan(rng, nleaves=None, nfam=None, fancy_names=False, use_internal=None,
     if nleaves is None:
         nleaves = rng.randint(2, max_leaves)
     shape = rng.choice([None, None, None, None, 'caterpillar', 'balanced', 'star'])
-    if dup_heavy and dup_heavy != 'narrow':
+    if dup_heavy == 'narrow':
+        shape = rng.choice(['caterpillar', 'caterpillar', None])
+    elif dup_heavy:
         shape = rng.choice(['balanced', 'balanced', None])
     pl.tree = gen_tree(rng, nleaves, max_arity=rng.choice([2, 3, 4, 5]), fancy_names=fancy_names, shape=shape, unary=unary)
     pl.use_internal = (rng.random() < 0.6) if use_internal is None else use_internal
